@@ -34,9 +34,9 @@ META = {
                   "trusted here (C01-C03 check it). Default rtol/atol, same-interface data (python/numpy). Objects carrying "
                   "per-instance unique ids (DynamicWire, MeasurementValue of a fresh qp.measure) are not re-generated from seed.",
     "shards": {"quick": 4, "thorough": 16},
-    "budget_s": {"quick": 70, "thorough": 170},
-    "min_evals": {"quick": 20000, "thorough": 200000},
-    "min_nontrivial": {"quick": 5000, "thorough": 40000},
+    "budget_s": {"quick": 150, "thorough": 300},
+    "min_evals": {"quick": 8000, "thorough": 80000},
+    "min_nontrivial": {"quick": 2000, "thorough": 20000},
     "deciding": ["eq.reflexive", "eq.identical", "hash.identical", "eq.symmetric", "eq.implies_matrix"],
     "rule": "case = one (object, partner, provenance) pair; distinct = distinct (class, data fingerprint, provenance kind); non-trivial = "
             "partner is a different Python object and (identical-data kinds) the object has parameters/hyper-parameters/nesting, or "
@@ -332,9 +332,9 @@ def run(ctx):
 
     ctx.note("import_s", round(ctx.elapsed(), 1))
     classes = [c.__name__ for c in opzoo.classes(qp) if c.__name__ != "ParametrizedEvolution" or not ctx.quick]
-    per_class = 6 if ctx.quick else 40
+    per_class = 4 if ctx.quick else 40
     work = [("zoo", n) for _ in range(per_class) for n in classes]
-    n_expr, n_mp = (2000, 1000) if ctx.quick else (16000, 8000)
+    n_expr, n_mp = (1200, 600) if ctx.quick else (16000, 8000)
     work += [("expr", None)] * n_expr + [("mp", None)] * n_mp
     for i, (src, name) in enumerate(work):
         if i % ctx.nshards != ctx.shard:
